@@ -72,6 +72,10 @@ func rulesC06(c *Ctx) {
 	R.Rule("R3", "decode error => no operation call; every handler path writes one response", 20)
 	R.Rule("R4", "what the pre-checks test is what storage enforces: the statements on the spent, pending and signature tables bind each column to its own unmodified value (a key stored under a transformed form - lower-cased, trimmed - lets two requests that pass the duplicate checks collide on the key after the inputs were spent; shared with C15.R5)", 10)
 	c.ruleSQLAgreement("R4", map[string]bool{"proofs": true, "pending_proofs": true, "blind_signatures": true})
+	R.Rule("R5", "the signatures are stored under exactly the B_ strings the duplicate / already-signed checks compared (shared with C15.R1): no normalisation between the check and the key", 2)
+	c.ruleSigsSavedForOutputs("R5")
+	R.Rule("R6", "the request operations keep no request-keyed state in memory: swap, melt and mint do not write a map of the long-lived mint object (what a refused request leaves in memory is not undone by any storage rollback; such a mechanism is not decided by these rules)", 3)
+	c.c06NoInMemoryRequestState()
 	c.vocabProblems("R1")
 	scope := c.handlerScope()
 	R.Analysed["functions_in_handler_scope"] = len(scope)
@@ -419,4 +423,54 @@ func (c *Ctx) c06DuplicateOutputsByKey(rule string) {
 		}
 	}
 	R.Check(rule, fk, "duplicate outputs are detected by B_", c.P.Pos(f.Pos()), ok, "the duplicate-output test compares the outputs by B_, the primary key of the signature table", why)
+}
+
+// c06NoInMemoryRequestState: R6 (fail-closed census).
+func (c *Ctx) c06NoInMemoryRequestState() {
+	R := c.R
+	for _, path := range []string{"/v1/swap", "/v1/melt/{method}", "/v1/mint/{method}"} {
+		op := c.op("R6", path)
+		if op == nil {
+			continue
+		}
+		fk := c.P.FuncKey(op)
+		bad := ""
+		for _, g := range c.OpFuncs(op) {
+			o := c.P.OriginsOf(g)
+			for _, b := range g.Blocks {
+				for _, in := range b.Instrs {
+					var m ssa.Value
+					what := ""
+					switch x := in.(type) {
+					case *ssa.MapUpdate:
+						m, what = x.Map, "map update"
+					case *ssa.Call:
+						d := c.P.Describe(x)
+						switch {
+						case d.Name == "builtin.delete" && len(x.Call.Args) > 0:
+							m, what = x.Call.Args[0], "map delete"
+						case strings.HasPrefix(d.Name, "sync.(*Map).") && (strings.HasSuffix(d.Name, ".Store") || strings.HasSuffix(d.Name, ".LoadOrStore") || strings.HasSuffix(d.Name, ".Delete") || strings.HasSuffix(d.Name, ".Swap")) && d.Recv != nil:
+							m, what = d.Recv, d.Name
+						}
+					}
+					if m == nil {
+						continue
+					}
+					e := o.Of(m)
+					// a field of the receiver object (the long-lived mint), not a local map
+					if len(g.Params) > 0 && g.Signature.Recv() != nil && strings.HasPrefix(e.String(), "P:"+g.Params[0].Name()+".") {
+						bad = what + " on " + short(e.String(), 60) + " at " + c.P.InstrPos(in)
+					}
+					if strings.Contains(e.String(), "&P:") && g.Signature.Recv() != nil && strings.Contains(e.String(), g.Params[0].Name()+".") {
+						bad = what + " on " + short(e.String(), 60) + " at " + c.P.InstrPos(in)
+					}
+				}
+			}
+		}
+		if bad == "" {
+			R.Check("R6", fk, "no in-memory request state", c.P.Pos(op.Pos()), true, "the operation writes no map of the mint object", "")
+		} else {
+			R.Undecided("R6", fk, "no in-memory request state", c.P.Pos(op.Pos()), "the operation writes no map of the mint object", bad+": whether every refused request removes what it inserted is not decided")
+		}
+	}
 }
